@@ -126,7 +126,7 @@ structure InvS (s : St) : Prop where
   seq_inj : ∀ t u, (s.loc t).hasSeq = true → (s.loc u).hasSeq = true → (s.loc t).seq = (s.loc u).seq → t = u
   fresh : ∀ q, s.seqCounter ≤ q → freshSeq s q
   at_c1 : ∀ t, (s.loc t).hasSeq = true → (s.loc t).pc = .c1 → freshSeq s (s.loc t).seq
-  at_c2 : ∀ t, (s.loc t).hasSeq = true → (s.loc t).pc = .c2 →
+  at_c2 : ∀ t, (s.loc t).hasSeq = true → (s.loc t).pc = .c2 → s.closed = false →
             s.answer (s.loc t).seq = none ∧ (s.loc t).seq ∉ s.outstanding
   out_nodup : s.outstanding.Nodup
   out_unanswered : ∀ q ∈ s.outstanding, s.answer q = none ∧ q < s.seqCounter
@@ -136,8 +136,12 @@ structure InvS (s : St) : Prop where
       f.seq = q ∧ s.popper q = some t ∧ (s.cells q).reg = false ∧ s.completions q = 0 ∧ (s.cells q).ready = false ∧
       (((s.loc t).pc = .d4 ∨ (s.loc t).pc = .d5) → (s.cells q).isExc = some f.exc) ∧
       ((s.loc t).pc = .d5 → (s.cells q).obj = some f.val)
-  chan_answer : ∀ f ∈ s.chan, s.answer f.seq = some (f.exc, f.val)
-  data_answer : ∀ t f, (s.loc t).data = some f → s.answer f.seq = some (f.exc, f.val)
+  /-- frames are answers the peer gave — unless the request was meanwhile completed by `_cleanup` with the end of the
+  connection (then the frame finds no callback) -/
+  chan_answer : ∀ f ∈ s.chan, s.answer f.seq = some (f.exc, f.val) ∨ (s.cells f.seq).eofed = true
+  data_answer : ∀ t f, (s.loc t).data = some f → s.answer f.seq = some (f.exc, f.val) ∨ (s.cells f.seq).eofed = true
+  eofed_unreg : ∀ q, (s.cells q).eofed = true → (s.cells q).reg = false
+  raising_pc : ∀ t, (s.loc t).raising = true → (s.loc t).pc.holding = true
   obj_answer : ∀ q v, (s.cells q).obj = some v → ∃ e, s.answer q = some (e, v)
   exc_answer : ∀ q e, (s.cells q).isExc = some e → ∃ v, s.answer q = some (e, v)
   compl_le : ∀ q, s.completions q ≤ 1
@@ -148,7 +152,8 @@ structure InvS (s : St) : Prop where
       ∃ e' v, s.answer (s.loc t).seq = some (e', v) ∧ e = some e' ∧ o = some v
   /-- a waiter whose reply was dispatched by itself has left `serve` -/
   self_dispatch : ∀ t, (s.loc t).hasSeq = true → (s.cells (s.loc t).seq).ready = true →
-      s.popper (s.loc t).seq = some t → (s.loc t).pc = .w0 ∨ (s.loc t).pc = .w9 ∨ (s.loc t).pc = .w10
+      s.popper (s.loc t).seq = some t →
+      (s.loc t).pc = .w0 ∨ (s.loc t).pc = .w9 ∨ (s.loc t).pc = .w10 ∨ (s.loc t).raising = true
   /-- inside `serve`, a client's deadline is its request's expiry -/
   dl_ttl : ∀ t, (s.loc t).hasSeq = true → (s.loc t).pc.inServe = true → (s.loc t).dl = (s.cells (s.loc t).seq).ttl
   /-- the condition wait never outlasts `serve`'s deadline -/
